@@ -91,6 +91,7 @@ harness!(st_insert__s8_8g4, st_insert, S8_8G4);
 harness!(st_insert__s8_e, st_insert, S8_E);
 harness!(st_insert__s4f_e, st_insert, S4F_E);
 harness!(st_insert__s16_8, st_insert, S16_8);
+harness!(st_insert__s8m0_4a, st_insert, S8M0_4A);
 
 // ------------------------------------------------------------------------------ remove
 fn st_remove(sh: Shape) {
@@ -233,6 +234,7 @@ harness!(st_lookup__s8_4a, st_lookup, S8_4A);
 harness!(st_lookup__s8_8g0, st_lookup, S8_8G0);
 harness!(st_lookup__s8_8g4, st_lookup, S8_8G4);
 harness!(st_lookup__s8_e, st_lookup, S8_E);
+harness!(st_lookup__s8m0_4a, st_lookup, S8M0_4A);
 
 // ------------------------------------------------------------------------------ remove_entry
 fn st_remove_entry(sh: Shape) {
@@ -280,6 +282,7 @@ fn st_clear(sh: Shape) {
 harness!(st_clear__s8_8g4, st_clear, S8_8G4);
 harness!(st_clear__s8_e, st_clear, S8_E);
 harness!(st_clear__u8_3t, st_clear, U8_3T);
+harness!(st_clear__s8m0_4a, st_clear, S8M0_4A);
 
 // ------------------------------------------------------------------------------ extend / from_iter
 fn st_extend2(sh: Shape) {
